@@ -1,6 +1,8 @@
 package main
 
 import (
+	"strconv"
+
 	"verif/harness/vh"
 )
 
@@ -86,6 +88,23 @@ func (g *recGen) next() RecSpec {
 	if r.Chance(20) {
 		s.Fields = r.Intn(3)
 	}
+	// unusual but legal shapes (nil Tags is not among them: the unchanged encoder dereferences it)
+	if r.Chance(10) {
+		s.NilFields = true
+	}
+	if r.Chance(8) {
+		s.NoCat = true
+	}
+	if r.Chance(8) {
+		s.Line0 = true
+	}
+	if r.Chance(3) {
+		s.LongTag = r.PickInt([]int{253, 254, 300, 4000})
+		if r.Chance(5) && g.big > 0 {
+			g.big--
+			s.LongTag = 33000 // value of 66000 bytes: 5-byte length prefix
+		}
+	}
 	// time: steps around the waiting time in force
 	w := g.st.MaxWait
 	switch {
@@ -167,7 +186,7 @@ func genConf(r *vh.Rng) *ConfSpec {
 // genCase: one deterministic history.
 func genCase(r *vh.Rng, thorough bool) *Case {
 	st := genSettings(r)
-	c := &Case{Kind: "det", Settings: st, Client: r.PickStr([]string{"consume", "retain"}), FailedCb: r.Chance(20)}
+	c := &Case{Kind: "det", Settings: st, Client: r.PickStr([]string{"consume", "retain"}), FailedCb: r.Chance(20), Fault: genFault(r)}
 	if r.Chance(12) {
 		return genBurst(r, c)
 	}
@@ -278,6 +297,24 @@ func genCase(r *vh.Rng, thorough bool) *Case {
 	return c
 }
 
+// genFault: in a third of the cases the client reports transmission errors
+func genFault(r *vh.Rng) string {
+	if !r.Chance(33) {
+		return ""
+	}
+	switch r.Intn(5) {
+	case 0:
+		return "first"
+	case 1:
+		return "all"
+	case 2:
+		return "every:2"
+	case 3:
+		return "every:3"
+	}
+	return "random:" + strconv.Itoa(r.PickInt([]int{20, 50, 80})) + ":" + strconv.Itoa(r.Intn(1000))
+}
+
 // genBurst: producers outrun the consumer by more than the queue holds — k > capacity records are
 // added before any loop iteration (several rounds), then everything is consumed.
 func genBurst(r *vh.Rng, c *Case) *Case {
@@ -351,7 +388,7 @@ type Free struct {
 func genFree(r *vh.Rng, thorough bool) *Case {
 	st := Settings{MaxWait: r.Pick64([]int64{3, 10, 25}), QueueCap: r.Pick64([]int64{0, 1000, 1000, 3, 1, 2, 5}),
 		MaxBuf: r.Pick64([]int64{1, 60, 100, 257, 1000, 4096, 65536}), ZipMin: r.Pick64([]int64{0, 40, 100, 300, 1 << 30})}
-	c := &Case{Kind: "free", Settings: st, Client: r.PickStr([]string{"consume", "retain"})}
+	c := &Case{Kind: "free", Settings: st, Client: r.PickStr([]string{"consume", "retain"}), Fault: genFault(r)}
 	f := &Free{StopEarly: r.Chance(50), Accept: r.PickStr([]string{"failed", "put", "put", "stalled"})}
 	// producers much faster than the sender: bursts without pauses against a slow client
 	fast := r.Chance(45)
@@ -371,7 +408,7 @@ func genFree(r *vh.Rng, thorough bool) *Case {
 	if f.Accept == "stalled" {
 		switch {
 		case st.QueueCap == 1000 && r.Chance(25):
-			per = (1000 + 1 + r.Intn(30)) / np + 1 // the default capacity, overrun by a stalled consumer
+			per = (1000+1+r.Intn(30))/np + 1 // the default capacity, overrun by a stalled consumer
 		case st.QueueCap == 0 || st.QueueCap == 1000:
 			st.QueueCap = r.Pick64([]int64{1, 2, 5})
 			c.Settings = st
